@@ -23,15 +23,22 @@ package interp
 // for every value of their arguments (strconv.Atoi etc. return any integer). A contract without clauses
 // asks for the safety obligations only. ----
 
+// The getopts state of a runner: both counters never go negative. It is an object invariant: relied on at entry and
+// after calls, and re-established by every writer - the getopts builtin (optind-1 after clamping optind to >= 1) and
+// next itself - through the onstore obligations below; that these are all the writers is the onstore-coverage obligation.
 //@ func Runner.builtin
 //@ props C28
+//@ objinv Runner [getopts-state] self.optState.argidx >= 0 && self.optState.runeidx >= 0
+//@ onstore getopts.argidx [nonneg] value >= 0
+//@ onstore getopts.runeidx [nonneg] value >= 0
+//@ onstore Runner.optState [nonneg] value.argidx >= 0 && value.runeidx >= 0
 
-// getopts state is private to the runner: both counters never go negative (object invariant, re-established by next).
 //@ func getopts.next
 //@ props C28
-//@ assume [state-nonneg] g.argidx >= 0 && g.runeidx >= 0
-//@ note state-nonneg is an object invariant: the counters are assigned only by next itself (ensures below) and by the getopts builtin (optind-1 after clamping optind to >= 1, runeidx 0)
+//@ requires [state-nonneg] g.argidx >= 0 && g.runeidx >= 0
 //@ ensures [state-nonneg] g.argidx >= 0 && g.runeidx >= 0
+//@ onstore getopts.argidx [nonneg] value >= 0
+//@ onstore getopts.runeidx [nonneg] value >= 0
 //@ modifies *g
 
 //@ func flagParser.more
